@@ -22,7 +22,7 @@ type replWorkload struct {
 	EndAt     int64
 	LeaderMod func(c *hapi.Config)
 	Stale     bool // the follower starts from a stale directory (it had synced an earlier prefix, then was down)
-	Burst     int   // >0: at BurstAt the leader->follower stream is held back, Burst records are produced, then the stream is released at once
+	Burst     int  // >0: at BurstAt the leader->follower stream is held back, Burst records are produced, then the stream is released at once
 	BurstAt   int64
 	Sparse    bool // cut positions on a coarse grid only (long streams)
 }
